@@ -52,10 +52,11 @@ ASSUMPTIONS = [
     "(redirected) temporary directory",
     "clause 4: 'save' means the binary saves TTFont.save, TTCollection.save, subset.save_font, ttx.ttCompile; "
     "failpoints after the destination has been opened (non-atomic write) are out of scope, table-compile failures "
-    "are always in scope; streaming saveXML is not a 'save' in this sense",
+    "are always in scope; streaming saveXML is not a 'save' in this sense; the ttx tool's documented promise not to "
+    "overwrite an existing output unless -f is given is checked with the same destination-preservation oracle",
     "resource-exhaustion payloads are bounded by a watchdog; a firing watchdog is inconclusive, never a violation; damaged "
     "table payloads that make a decompiler loop or allocate without bound (e.g. a cmap format 12 group spanning 2**31 code "
-    "points) are bounded per variant by a 40 s watchdog and a 4 GiB address-space limit and counted as not judged",
+    "points) are bounded per variant by a 40 s watchdog and a 2 GiB address-space limit and counted as not judged",
 ]
 REQUIRED_MONITORS = [
     "SFNTReader.__init__", "SFNTReader.__getitem__", "readTTCHeader", "WOFF2Reader.__init__",
@@ -161,7 +162,7 @@ def setup():
         import resource
 
         soft, hard = resource.getrlimit(resource.RLIMIT_AS)
-        lim = 4 << 30
+        lim = 2 << 30
         if hard == resource.RLIM_INFINITY or hard > lim:
             resource.setrlimit(resource.RLIMIT_AS, (lim, hard))
     except Exception:
@@ -190,7 +191,9 @@ def _is_write(mode, flags):
 
 
 class _deadline:
-    """A shorter watchdog for one library call inside a case (re-arms the worker's alarm)."""
+    """A shorter watchdog for one library call inside a case.  Uses the worker's repeating interval
+    timer (a timeout swallowed by a bare `except:` or raised where exceptions are ignored fires again
+    every 10 s) and restores the case-level timer on exit."""
 
     def __init__(self, secs):
         self.secs = secs
@@ -198,17 +201,38 @@ class _deadline:
 
     def __enter__(self):
         if self.on:
-            self.t0 = time.time()
-            self.rest = signal.alarm(self.secs)
+            self.t0 = time.monotonic()
+            self.rest, self.interval = signal.setitimer(signal.ITIMER_REAL, self.secs, 10)
         return self
 
     def __exit__(self, *a):
         if self.on:
             if self.rest:
-                signal.alarm(max(1, int(self.rest - (time.time() - self.t0))))
+                signal.setitimer(signal.ITIMER_REAL, max(1.0, self.rest - (time.monotonic() - self.t0)), self.interval or 15)
             else:
-                signal.alarm(0)
+                signal.setitimer(signal.ITIMER_REAL, 0)
         return False
+
+
+def _release():
+    """Drop every reference the monitors hold to exceptions / tables of the abandoned variant and collect:
+    a MemoryError's traceback pins the frame that owns the multi-gigabyte list."""
+    import gc
+
+    _cur.update(exc=None, stage=None, gtd_exc=None, gtd_tag=None, fallback=None, writer_in=None)
+    gc.collect()
+
+
+def _over_budget(ctx):
+    """Case-level budget (monotonic clock, independent of signals): True once 85 % of the case timeout
+    is used up; the caller stops enumerating and the case ends inconclusive."""
+    dl = _cur.get("case_deadline")
+    if dl is not None and time.monotonic() > dl:
+        if not _cur.get("budget_reported"):
+            _cur["budget_reported"] = True
+            ctx.inconclusive("case budget exhausted: enumeration stopped")
+        return True
+    return False
 
 
 # ------------------------------------------------------------------ cases
@@ -396,7 +420,8 @@ def cases(tier, seed):
 # ------------------------------------------------------------------ dispatcher
 def run_case(case, ctx):
     rnd = random.Random("%s/%s" % (case["id"], case["seed"]))
-    _cur.update(exc=None, stage=None, gtd_exc=None, gtd_tag=None, writer_in=None, fallback=None, fp=None, dest=None, boundary=None)
+    _cur.update(exc=None, stage=None, gtd_exc=None, gtd_tag=None, writer_in=None, fallback=None, fp=None, dest=None, boundary=None,
+                case_deadline=time.monotonic() + 0.85 * float(case.get("timeout", CASE_TIMEOUT)), budget_reported=False)
     fn = globals()["run_" + case["kind"].replace("-", "_")]
     fn(case, ctx, rnd)
 
@@ -510,8 +535,33 @@ def _probe_open(ctx, data, lazy, container, fault, where):
                             _bad_short(ctx, container, mode, fault, where, str(tag), len(got), ln, beyond=off + ln - len(data))
                         elif outlen is not None and len(got) != outlen:
                             _bad_short(ctx, container, mode, fault, where, str(tag), len(got), outlen)
+                        elif outlen is None and container == "woff":
+                            # compressed WOFF table: inflate the stored stream independently; what the reader
+                            # hands out must be that whole stream (the directory's origLength has to agree with it)
+                            full = _inflate(data[off:off + ln])
+                            if full is not None and bytes(got) != full:
+                                _bad_short(ctx, container, mode, fault, where, str(tag), len(got), len(full))
     _cur["exc"] = _cur["stage"] = None
     return reached, outcomes
+
+
+_inflate_cache = {}
+
+
+def _inflate(raw):
+    import zlib
+
+    key = bytes(raw)
+    if key not in _inflate_cache:
+        if len(_inflate_cache) > 256:
+            _inflate_cache.clear()
+        try:
+            d = zlib.decompressobj()
+            out = d.decompress(key)
+            _inflate_cache[key] = out if (d.eof and not d.unused_data) else None
+        except zlib.error:
+            _inflate_cache[key] = None
+    return _inflate_cache[key]
 
 
 def _dir_lengths(data, container, index):
@@ -585,6 +635,8 @@ def run_trunc(case, ctx, rnd):
     lens = GF.trunc_lengths(data)
     n_reached = 0
     for L in lens:
+        if _over_budget(ctx):
+            break
         reached, out = _probe_open(ctx, data[:L], case["lazy"], container, "truncation",
                                    {"font": case["font"], "flavour": case["flavour"], "truncate_to": L, "of": len(data), "lazy": case["lazy"]})
         if reached:
@@ -604,6 +656,8 @@ def run_corrupt(case, ctx, rnd):
     sites = GF.corrupt_sites(data)
     n = 0
     for pos, val in sites:
+        if _over_budget(ctx):
+            break
         d = bytearray(data)
         d[pos] = val
         reached, out = _probe_open(ctx, bytes(d), None, container, "corruption",
@@ -844,19 +898,23 @@ def run_payload(case, ctx, rnd):
         if tag not in tabs:
             continue
         for dname, dbytes in GF.payload_damages(tabs[tag], rnd, short=case.get("short") or (4, 8, 10, 13)):
+            if _over_budget(ctx):
+                break
             # damaged counts can send a decompiler into very long loops: bound each variant separately
             try:
                 with _deadline(40):
                     variant(tag, dname, dbytes)
             except CaseTimeout:
-                _cur["fallback"] = _cur["writer_in"] = None
+                _release()
                 ctx.note("clause2:variant stopped by the 40 s watchdog (resource exhaustion, not judged)")
                 ctx.skip("damaged payload variant exceeded the watchdog")
             except MemoryError:
                 # e.g. a cmap format 12 group whose damaged end code spans 2**31 code points
-                _cur["fallback"] = _cur["writer_in"] = None
+                _release()
                 ctx.note("clause2:variant stopped by the address-space limit (resource exhaustion, not judged)")
                 ctx.skip("damaged payload variant exceeded the memory limit")
+            finally:
+                _cur["exc"] = _cur["gtd_exc"] = None      # an exception keeps its frames (and their giant lists) alive
     ctx.note("clause2:target table fell back to raw bytes", n_fb)
     ctx.note("clause2:damaged payload still decoded", n_dec)
     ctx.note("clause2:saves completed", n_saved)
@@ -997,15 +1055,19 @@ def run_payload_ttc(case, ctx, rnd):
             ctx.note("clause2:collection case stopped at its 120 s budget (remaining tables not enumerated)")
             break
         for dname, dbytes in GF.payload_damages(tabs[tag], rnd, short=case.get("short") or (4, 8)):
+            if _over_budget(ctx):
+                break
             try:
                 with _deadline(40):
                     variant(tag, dname, dbytes)
             except CaseTimeout:
-                _cur["fallback"] = None
+                _release()
                 ctx.skip("damaged payload variant exceeded the watchdog")
             except MemoryError:
-                _cur["fallback"] = None
+                _release()
                 ctx.skip("damaged payload variant exceeded the memory limit")
+            finally:
+                _cur["exc"] = _cur["gtd_exc"] = None
     _cur["fallback"] = None
     ctx.note("clause2:collection variants where the shared table fell back to raw bytes", n_fb)
     ctx.note("clause2:collection saves completed", n_saved)
@@ -1207,6 +1269,8 @@ def run_canary_xml(case, ctx, rnd):
         n_acc = n_rej = 0
         outcomes = {}
         for k, (cls, pi, occ) in enumerate(case["muts"]):
+            if _over_budget(ctx):
+                break
             st = _site_pick(sites, cls, random.Random("%s/%s/%s/%s" % (rel, cls, occ, case["seed"])))
             if st is None:
                 ctx.skip("class vanished from file")
@@ -1766,6 +1830,8 @@ def run_failsave_lines(case, ctx, rnd):
         fired = raised = swallowed = 0
         seen = set()
         for k in mine:
+            if _over_budget(ctx):
+                break
             dest = _prepare_dest(sb)
             _cur.update(dest=dest, boundary=None)
             try:
@@ -1987,7 +2053,48 @@ def run_failsave_cli(case, ctx, rnd):
                                       % (lab, kind, " in %r" % victim if victim else "",
                                          "modified (now %s bytes, was %d)" % (size, len(PRECIOUS)) if not same else "left with stray files %s" % stray),
                                       {"cli": lab, "failure": kind, "table": victim, "stray": stray})
+        # ---- without -f an existing output is never overwritten: the tool picks a free name (Font#1.ttf)
+        keep = 0
+        if case.get("part", 0) == 0:
+            for lab, make in (
+                ("ttx -d (no -f)", lambda out, src: ttx.main(["-q", "-d", out, src])),
+                ("ttx (no -f)", lambda out, src: ttx.main(["-q", src])),
+                ("ttx -d dump (no -f)", lambda out, src: ttx.main(["-q", "-d", out, ttf])),
+            ):
+                shutil.rmtree(sb.out, ignore_errors=True)
+                os.makedirs(sb.out)
+                srcdir = os.path.join(sb.out, "src") if "-d" in lab else sb.out
+                os.makedirs(srcdir, exist_ok=True)
+                src = os.path.join(srcdir, "Font.ttx")
+                with open(src, "w", encoding="utf-8") as f:
+                    f.write(text)
+                victim = os.path.join(sb.out, "good.ttx" if "dump" in lab else "Font.ttf")
+                with open(victim, "wb") as f:
+                    f.write(PRECIOUS)
+                ok = True
+                with _run_lib(sb, secs=60):
+                    try:
+                        make(sb.out, src)
+                    except SystemExit as e:
+                        ok = e.code in (0, None)
+                    except (CaseTimeout, MemoryError):
+                        raise
+                    except Exception:
+                        ok = False
+                ctx.judged()
+                keep += 1
+                ctx.nontrivial("q:keep:%s" % lab)
+                with open(victim, "rb") as f:
+                    same = f.read() == PRECIOUS
+                if not same:
+                    mech = {"kind": "existing-file-overwritten", "op": lab}
+                    if tuple(sorted(mech.items())) not in seen:
+                        seen.add(tuple(sorted(mech.items())))
+                        ctx.violation(mech, "%s overwrote the existing %s although -f was not given (job %s)"
+                                      % (lab, os.path.basename(victim), "succeeded" if ok else "failed"),
+                                      {"cli": lab, "files_after": sorted(os.listdir(sb.out))})
+        ctx.note("clause4:runs without -f next to an existing output", keep)
         ctx.note("clause4:failing command-line jobs", n)
-        ctx.sample = {"kind": "failsave-cli", "failing_jobs": n, "entry_points": sorted({l for l, k in labels})}
+        ctx.sample = {"kind": "failsave-cli", "failing_jobs": n, "no_overwrite_runs": keep, "entry_points": sorted({l for l, k in labels})}
     finally:
         sb.close()
